@@ -8,6 +8,7 @@ package metric
 import (
 	"context"
 	"fmt"
+	"os"
 	"sort"
 	"strings"
 	"testing"
@@ -316,6 +317,75 @@ func c02Body(sc c02Scn, res *string) func(x *sched.Exec) {
 	}
 }
 
+// c02LimitBody: conservation when the (experimental) cardinality limit folds attribute sets into
+// the overflow set while recorders race: limit 2, three recorder threads with three distinct sets
+// (so two of them overflow, possibly at the same moment) and a delta collector. Whatever set a
+// measurement is filed under, every measurement (distinct powers of three) is counted exactly once
+// over all delta collections and the cumulative reader's last collection holds all of them.
+func c02LimitBody(res *string) func(x *sched.Exec) {
+	return func(x *sched.Exec) {
+		ctx := context.Background()
+		os.Setenv("OTEL_GO_X_CARDINALITY_LIMIT", "2")
+		defer os.Unsetenv("OTEL_GO_X_CARDINALITY_LIMIT")
+		delta := NewManualReader(WithTemporalitySelector(func(InstrumentKind) metricdata.Temporality { return metricdata.DeltaTemporality }))
+		cum := NewManualReader()
+		mp := NewMeterProvider(WithReader(delta), WithReader(cum))
+		c, _ := mp.Meter("m").Int64Counter("c")
+		var deltas, cums []int64
+		collect := func(rd *ManualReader, into *[]int64) {
+			var rm metricdata.ResourceMetrics
+			if err := rd.Collect(ctx, &rm); err != nil {
+				x.Fail("C02|limit|collect-error", "Collect: %v", err)
+				return
+			}
+			for _, sm := range rm.ScopeMetrics {
+				for _, m := range sm.Metrics {
+					if d, ok := m.Data.(metricdata.Sum[int64]); ok {
+						for _, dp := range d.DataPoints {
+							*into = append(*into, dp.Value)
+						}
+					}
+				}
+			}
+		}
+		var wg vsync.WaitGroup
+		wg.Add(4)
+		for i, v := range []int64{1, 3, 9} {
+			sched.Go(func() {
+				defer wg.Done()
+				c.Add(ctx, v, api.WithAttributes(attribute.Int("set", i)))
+			})
+		}
+		sched.Go(func() {
+			defer wg.Done()
+			collect(delta, &deltas)
+		})
+		wg.Wait()
+		collect(delta, &deltas)
+		collect(cum, &cums)
+		count := func(vals []int64) (digits [3]int, bad bool) {
+			for _, v := range vals {
+				for i := 0; i < 3; i++ {
+					d := v % 3
+					v /= 3
+					digits[i] += int(d)
+				}
+				if v != 0 {
+					bad = true
+				}
+			}
+			return
+		}
+		if d, bad := count(deltas); bad || d != [3]int{1, 1, 1} {
+			x.Fail("C02|limit|delta-sum-mismatch", "cardinality limit 2, three sets recording 1, 3, 9 concurrently: delta values over all collections and sets are %v (each measurement must be counted exactly once)", deltas)
+		}
+		if d, bad := count(cums); bad || d != [3]int{1, 1, 1} {
+			x.Fail("C02|limit|cumulative-total-mismatch", "cardinality limit 2, three sets recording 1, 3, 9 concurrently: the cumulative reader's values are %v (total must be 13, each measurement once)", cums)
+		}
+		*res = fmt.Sprint(deltas, cums)
+	}
+}
+
 type c02Job struct {
 	sc   c02Scn
 	p, e int
@@ -483,6 +553,108 @@ func c02SameName(r *enum.R) {
 	}
 }
 
+// c02ManySets: conservation does not depend on how many attribute sets an instrument has seen. N
+// sets (up to well past the specification's default cardinality limit of 2000), four cycles in
+// which every set / every other set / no set / every set is measured, read by a delta and a
+// cumulative reader: per set, the cumulative value is the running total, the delta values add up
+// to it, and a monotonic sum never decreases. Sequential.
+func c02ManySets(r *enum.R) {
+	sizes := []int{1, 64, 2000, 2001, 5000}
+	r.Bound("many_sets_sizes", sizes)
+	for _, n := range sizes {
+		for _, kind := range []string{"int64 counter", "float64 up-down counter"} {
+			if !r.Want() {
+				continue
+			}
+			r.Eval()
+			cas := map[string]any{"attribute_sets": n, "instrument": kind}
+			x := sched.Run(nil, 4000000, false, func(x *sched.Exec) {
+				ctx := context.Background()
+				delta := NewManualReader(WithTemporalitySelector(func(InstrumentKind) metricdata.Temporality { return metricdata.DeltaTemporality }))
+				cum := NewManualReader()
+				mp := NewMeterProvider(WithReader(delta), WithReader(cum))
+				var add func(i int, v int64)
+				if kind == "int64 counter" {
+					c, _ := mp.Meter("m").Int64Counter("c")
+					add = func(i int, v int64) { c.Add(ctx, v, api.WithAttributes(attribute.Int("id", i))) }
+				} else {
+					c, _ := mp.Meter("m").Float64UpDownCounter("c")
+					add = func(i int, v int64) { c.Add(ctx, float64(v), api.WithAttributes(attribute.Int("id", i))) }
+				}
+				total := make([]int64, n)
+				deltaSum := make([]int64, n)
+				lastCum := make([]int64, n)
+				read := func(rd *ManualReader) map[int]int64 {
+					var rm metricdata.ResourceMetrics
+					if err := rd.Collect(ctx, &rm); err != nil {
+						x.Fail("C02|many-sets|collect-error", "Collect: %v", err)
+					}
+					out := map[int]int64{}
+					for _, sm := range rm.ScopeMetrics {
+						for _, m := range sm.Metrics {
+							switch d := m.Data.(type) {
+							case metricdata.Sum[int64]:
+								for _, dp := range d.DataPoints {
+									v, _ := dp.Attributes.Value("id")
+									out[int(v.AsInt64())] += dp.Value
+								}
+							case metricdata.Sum[float64]:
+								for _, dp := range d.DataPoints {
+									v, _ := dp.Attributes.Value("id")
+									out[int(v.AsInt64())] += int64(dp.Value)
+								}
+							}
+						}
+					}
+					return out
+				}
+				for cycle, every := range []int{1, 2, 0, 1} {
+					if every > 0 {
+						for i := 0; i < n; i += every {
+							v := int64(cycle + 1)
+							add(i, v)
+							total[i] += v
+						}
+					}
+					for i, v := range read(delta) {
+						deltaSum[i] += v
+					}
+					cv := read(cum)
+					for i := 0; i < n; i++ {
+						v, ok := cv[i]
+						if !ok {
+							x.Fail("C02|many-sets|cumulative-point-missing", "%d attribute sets, cycle %d: the cumulative reader no longer reports set id=%d (running total %d)", n, cycle, i, total[i])
+							return
+						}
+						if v < lastCum[i] {
+							x.Fail("C02|many-sets|cumulative-decreased", "%d attribute sets, cycle %d: cumulative value of id=%d went from %d to %d", n, cycle, i, lastCum[i], v)
+							return
+						}
+						lastCum[i] = v
+						if v != total[i] {
+							x.Fail("C02|many-sets|cumulative-total-mismatch", "%d attribute sets, cycle %d: cumulative value of id=%d is %d, running total %d", n, cycle, i, v, total[i])
+							return
+						}
+						if deltaSum[i] != total[i] {
+							x.Fail("C02|many-sets|delta-sum-mismatch", "%d attribute sets, cycle %d: delta values of id=%d add up to %d, running total %d", n, cycle, i, deltaSum[i], total[i])
+							return
+						}
+					}
+				}
+				_ = mp.Shutdown(ctx)
+			})
+			if x.Status != "" {
+				r.FailHere("many-sets|"+x.Status, cas, "%s\n%s", x.Status, x.Stack)
+			}
+			for _, f := range x.Violations {
+				r.FailHere(strings.TrimPrefix(f.Key, "C02|"), cas, "%s", f.Msg)
+			}
+			r.Outcome(fmt.Sprint(n, kind, len(x.Violations)))
+			r.Sample(func() any { return cas })
+		}
+	}
+}
+
 func TestVerifC02(t *testing.T) {
 	thorough := enum.Start("C02", "probe").Thorough()
 	all := c02Jobs(thorough)
@@ -490,13 +662,25 @@ func TestVerifC02(t *testing.T) {
 	for _, j := range all {
 		names = append(names, j.name())
 	}
-	names = append(names, "same-name-kinds")
+	names = append(names, "same-name-kinds", "many-sets", "M8-limit2-overflow/P2E0")
 	enum.Jobs(names, func(job string) {
 		r := enum.Start("C02", "sums")
 		defer r.Finish()
 		if job == "same-name-kinds" {
 			r.Section(job)
 			c02SameName(r)
+			return
+		}
+		if job == "many-sets" {
+			r.Section(job)
+			c02ManySets(r)
+			return
+		}
+		if job == "M8-limit2-overflow/P2E0" {
+			var res string
+			r.Bound("limit_scenario_max_preemptions", 2)
+			st := sched.Explore(r, sched.Config{Name: job, MaxP: 2, MaxE: 0, MaxSteps: 6000, Body: c02LimitBody(&res), Outcome: func(*sched.Exec) string { return res }})
+			t.Logf("%s: execs=%d states=%d outcomes=%d complete=%v keys=%v", job, st.Execs, st.States, len(st.Outcomes), st.Complete, r.Keys())
 			return
 		}
 		for _, j := range all {
